@@ -8,7 +8,7 @@ def run(chk):
         "Decides absence of specific classes of panic; it does not prove the ~500 remaining panic-capable sites (indexing, unwrap on internal "
         "invariants, third-party code) safe. R04a: no coercion result on a run-time value is unwrapped in resolve-reachable stdlib code. R04b: no result "
         "of a `dyn Target` call is unwrapped. R04c: every keyword compile() reads is declared (a mismatch is the 'invalid function signature' panic). "
-        "R04e: no overflow-capable negation / iN::abs / iN::pow of a run-time signed integer. R04f: no unguarded sign-losing cast feeding a count/index. R04g: no str slice/index bound computed from a character count. R04h: divisors and chunk/window/step sizes are constants or compared against zero. R04i: `regex::Captures` is indexed with the panicking `[]` only at the reviewed sites where the group always takes part in the match (an optional or alternated group makes `caps[i]` panic; `caps.get(i)` is the total API). R04j: in resolve-reachable stdlib code the result of a library call whose failure depends on the *content* of its argument (AEAD decryption = authentication, float->Decimal conversion = range, UTF-8 validation, FromStr parsing, regex compilation) is never consumed directly by unwrap/expect; all other unwrap-on-call sites are listed as instances but not decided. R04k: `rust_decimal::Decimal` arithmetic on a run-time operand goes through the `checked_*` API; the `+ - * / %` operator impls panic on overflow and on a zero divisor in every build profile.")
+        "R04e: no overflow-capable negation / iN::abs / iN::pow of a run-time signed integer. R04f: no unguarded sign-losing cast feeding a count/index. R04g: no str slice/index bound computed from a character count. R04h: divisors and chunk/window/step sizes are constants or compared against zero. R04i: `regex::Captures` is indexed with the panicking `[]` only at the reviewed sites where the group always takes part in the match (an optional or alternated group makes `caps[i]` panic; `caps.get(i)` is the total API). R04j: in resolve-reachable stdlib code the result of a library call whose failure depends on the *content* of its argument (AEAD decryption = authentication, float->Decimal conversion = range, UTF-8 validation, FromStr parsing, regex compilation) is never consumed directly by unwrap/expect; all other unwrap-on-call sites are listed as instances but not decided. R04k: `rust_decimal::Decimal` arithmetic on a run-time operand goes through the `checked_*` API; the `+ - * / %` operator impls panic on overflow and on a zero divisor in every build profile. R04l: ArgumentList::optional_enum accepts a literal only by Value equality with a declared variant (no case folding / trimming / prefix matching on the way), which is what the stdlib's `expect(\"validated enum\")` / `unreachable!()` arms after an enum argument rely on.")
     chk.assumptions += ["builds with overflow checks (the test profile) panic on arithmetic overflow; release builds wrap — the rule treats both as defects"]
     M = sr.function_model(chk.facts)
     sr.rule_coercion_unwrapped(chk, "R04a", M)
@@ -23,6 +23,7 @@ def run(chk):
     rule_r04i(chk)
     rule_r04j(chk, M)
     rule_r04k(chk)
+    rule_r04l(chk)
 
 
 CAPTURES_INDEX_OK = {
@@ -150,3 +151,39 @@ def rule_r04k(chk):
                 chk.violation(rid, b.file, n, "Decimal operator",
                               "%s applies the panicking operator %s to a run-time Decimal: rust_decimal panics (\"overflowed\", \"Division by zero\") where "
                               "checked_%s returns None" % (n, cal, cal.rsplit("::", 1)[1].replace("_assign", "")), detail=d, loc=d["at"])
+
+
+# R04l --------------------------------------------------------------------------------------------
+ENUM_VALIDATOR = "compiler::function::ArgumentList::optional_enum"
+NORMALISERS = r"eq_ignore_ascii_case|to_(ascii_)?(lower|upper)case|make_ascii_(lower|upper)case|::trim(_start|_end|_matches)?$|::starts_with|::ends_with|::strip_(prefix|suffix)|unicase|::to_lowercase|::eq_lossy"
+
+
+def rule_r04l(chk):
+    import re
+    facts = chk.facts
+    rid = "R04l"
+    chk.rule(rid, "enum arguments are validated by exact Value equality with a declared variant", floor=1)
+    if not facts.has(ENUM_VALIDATOR):
+        chk.fail_closed(rid, "anchor not found: %s" % ENUM_VALIDATOR)
+        return
+    stop = lambda c: c.endswith("::optional_literal") or not (c.startswith("compiler::function::") or c.startswith("<compiler::function::"))
+    seen, ext, par = facts.reach([ENUM_VALIDATOR], stop=stop, cha=False)
+    calls = set()
+    for n in seen:
+        nb = facts.body(n)
+        if nb is not None:
+            calls |= set((t.get("rfn_full") or t.get("fn_full") or nb.callee(t)) for _bb, t in nb.calls())
+    eqs = sorted(c for c in calls if re.search(r"PartialEq.* for &?value::value::Value>::eq$|<value::value::Value as std::cmp::PartialEq>::eq$|contains::<value::value::Value>|<impl \[value::value::Value\]>::contains$", c))
+    norm = sorted(c for c in calls if re.search(NORMALISERS, c))
+    b = facts.body(ENUM_VALIDATOR)
+    d = {"fn": ENUM_VALIDATOR, "bodies": sorted(seen), "value_equality": eqs, "normalising_calls": norm}
+    ok = bool(eqs) and not norm
+    chk.instance(rid, d, ok=ok)
+    if not eqs:
+        chk.violation(rid, b.file, ENUM_VALIDATOR, "no Value equality", "optional_enum no longer compares the literal with the declared variants by Value equality; "
+                      "stdlib code after an enum argument (`expect(\"validated enum\")`, `unreachable!()`) assumes the value IS one of the variants", detail=d,
+                      loc="%s:%s" % (b.file, b.line))
+    if norm:
+        chk.violation(rid, b.file, ENUM_VALIDATOR, "normalised comparison", "optional_enum accepts a literal after normalising it (%s): a spelling that is not a "
+                      "declared variant reaches stdlib code whose `expect(\"validated enum\")` / `unreachable!()` arms then panic at compile time or at run time"
+                      % ", ".join(x.rsplit("::", 1)[1] for x in norm), detail=d, loc="%s:%s" % (b.file, b.line))
